@@ -23,9 +23,14 @@ MATES = [  # composed mate-in-one positions (checked by the independent solver a
     "k7/2K5/8/8/8/8/8/1R6 w - - 0 1",                            # hmm: Rb8? not mate; solver filters
     "5rk1/5ppp/8/8/8/8/5PPP/3R2K1 w - - 0 1",
     "3k4/3P4/3K4/8/8/8/8/7R w - - 0 1",                          # Rh8#
+    # mates delivered along a whole line of the board (the mating piece is seven squares from the king), by discovery too
+    "7B/8/8/8/3P4/1K6/3N4/k7 w - - 0 1", "7b/8/8/8/3p4/1k6/3n4/K7 b - - 0 1", "b7/8/8/8/4p3/6k1/4n3/7K b - - 0 1",
+    "R7/8/8/8/8/8/1K6/k7 w - - 0 1"[:0] or "6K1/8/8/8/8/8/R7/7k w - - 0 1", "7k/8/5K2/8/8/8/8/R7 w - - 0 1",
+    "k7/8/1K6/8/8/8/7Q/8 w - - 0 1", "7k/8/6K1/8/8/8/Q7/8 w - - 0 1",
 ]
 
-DEAD = ["7k/5Q2/6K1/8/8/8/8/8 b - - 0 1", "R5k1/5ppp/8/8/8/8/8/4K3 b - - 0 1",
+DEAD = ["7B/8/8/3P4/8/1K5n/3N4/k7 b - - 0 1", "7b/8/8/3p4/8/1k5N/3n4/K7 w - - 0 1", "R6k/8/6K1/8/8/8/8/8 b - - 0 1",
+        "7k/5Q2/6K1/8/8/8/8/8 b - - 0 1", "R5k1/5ppp/8/8/8/8/8/4K3 b - - 0 1",
         "rnb1kbnr/pppp1ppp/8/4p3/6Pq/5P2/PPPPP2P/RNBQKBNR w KQkq - 1 3", "k7/2Q5/1K6/8/8/8/8/8 b - - 0 1"]
 
 
@@ -147,6 +152,15 @@ def gen_histories(r, n, maxdepth, roots_list):
     return cases
 
 
+def load_single_reply_histories():
+    out = []
+    for line in open(os.path.join(core.VERIF, "corpus", "C06_history.txt"), encoding="utf-8"):
+        if line.strip() and not line.startswith("#"):
+            a, b, c = [x.strip() for x in line.split("|")]
+            out.append((a, b, c))
+    return out
+
+
 def check_legality(rep, pid, tier_sizes, seed):
     """C06 (announced move legal, none iff no legal move) and C18 (pv lines playable), shared runs."""
     n, maxdepth = tier_sizes
@@ -174,6 +188,9 @@ def check_legality(rep, pid, tier_sizes, seed):
         for d in (3, 4):
             cases.append(["ttnew", "new " + f, "obs", "search %d -1 0" % d, "playh " + mv, "obs",
                           "search 1 -1 0", "search 2 -1 0", "search 3 -1 0", "search 5 -1 0"])
+    # the side to move has one legal move and it is the move the root's repetition guard would take out
+    for start, ms, only in load_single_reply_histories():
+        cases.append(["ttnew", "position fen %s moves %s" % (start, ms), "obs", "search 3 -1 0", "search 1 -1 0", "search - 0 0"])
     cases += gen_histories(r, n, maxdepth, roots.ALL)
     stats, kinds = Counter(), Counter()
     rust, lean = run_pair(rep, cases)
@@ -271,6 +288,8 @@ def check_stop(rep, tier, seed):
         for k in range(3 if tier == "quick" else 8):
             cases2.append(["new " + f, "obs", "ttnew", "search %d -1 0" % (depth + 1), "pushbias %d" % r.randrange(1 << 30), "obs",
                            "search - 0 0", "search - 1 0", "search - 2 0"])
+    for start, ms, only in load_single_reply_histories():
+        cases2.append(["position fen %s moves %s" % (start, ms), "obs", "ttnew", "search - 0 0", "search - 1 0", "search 3 -1 0", "search - 0 0"])
     stats, kinds = Counter(), Counter()
     rust, lean = run_pair(rep, cases2)
     first = correspondence(rep, "C07", cases2, rust, lean, stats)
@@ -499,13 +518,15 @@ def check_pruning(rep, tier, seed):
 def check_mates(rep, tier, seed):
     r = core.rng(seed, "C10")
     # candidate positions: composed mates + positions from walks; the independent solver decides
-    cand = list(MATES)
+    cand = list(MATES) + list(DEAD)
     prefix_cases = [walk_prefix(r, r.choice(roots.ALL), 30) for _ in range(150 if tier == "quick" else 12000)]
     outs, _ = core.run_rust(prefix_cases)
     for case, o in zip(prefix_cases, outs):
         if o[-1] and "|" in o[-1][0]:
             cand.append(o[-1][0].split("|")[0])
     cand = list(dict.fromkeys(cand))
+    sane = spec_queries(["spec_sane " + core.fen4(f) for f in cand])
+    cand = [f for f in cand if sane.get("spec_sane " + core.fen4(f)) == "sane"]      # the quantifier is over reachable positions
     ans = spec_queries(["spec_mate1 " + core.fen4(f) for f in cand] + ["spec_status " + core.fen4(f) for f in cand])
     cases, meta = [], []
     for f in cand:
@@ -520,9 +541,8 @@ def check_mates(rep, tier, seed):
         elif nlegal == 0:
             cases.append(["new " + f, "obs", "ttnew", "search 3 -1 0"])
             meta.append(("dead", f, [], "3"))
-    for f in DEAD:
-        cases.append(["new " + f, "obs", "ttnew", "search - 100000 0"])
-        meta.append(("dead", f, [], "-"))
+            cases.append(["new " + f, "obs", "ttnew", "search - 100000 0"])
+            meta.append(("dead", f, [], "-"))
     stats, kinds = Counter(), Counter()
     rust, lean = run_pair(rep, cases)
     first = correspondence(rep, "C10", cases, rust, lean, stats)
@@ -678,7 +698,9 @@ def check_bounds(rep, tier, seed):
             ops.append("pushh %d" % r.randrange(1 << 30))
         ops += ["obs", "ttnew", "search 3 -1 0", "search - %d 0" % (3000 if tier == "quick" else 60000), "moves u", "moves c"]
         cases.append(ops)
-    special = [roots.SPECIAL[0], "4k3/P6P/8/8/8/8/p6p/4K3 w - - 0 1", "r3k2r/1P4P1/8/8/8/8/1p4p1/R3K2R w KQkq - 0 1",
+    special = ["1P2k3/8/8/8/8/8/8/4K3 w - - 0 1", "4k3/8/8/8/8/8/8/1p2K3 b - - 0 1", "1p2k3/8/8/8/8/8/8/4K3 b - - 0 1",
+               "4k3/8/8/8/8/8/8/1P2K3 w - - 0 1", "P3k2P/8/8/8/8/8/8/p3K2p w - - 0 1",
+               roots.SPECIAL[0], "4k3/P6P/8/8/8/8/p6p/4K3 w - - 0 1", "r3k2r/1P4P1/8/8/8/8/1p4p1/R3K2R w KQkq - 0 1",
                "QQQQQQQQ/8/8/8/8/8/k7/4K2Q w - - 0 1", "3Q4/1Q4Q1/4Q3/2Q4R/Q4Q2/3Q4/1Q4Rp/1K1BBNNk w - - 0 1",
                "n1n1k3/1P6/8/8/8/8/6p1/4K1N1 w - - 0 1", "1QQQQQQQ/Q6Q/Q6Q/Q3k2Q/Q6Q/Q6Q/Q6Q/QQQQQQQK w - -"]
     for f in special:
@@ -689,6 +711,12 @@ def check_bounds(rep, tier, seed):
     for n in (0, 5, 396, 397, 398, 399, 400, 401, 450, 511, 512, 515, 600):
         ms = " ".join(shuffle[i % 4] for i in range(n))
         cases.append([("position startpos moves " + ms).strip(), "obs", "ttnew", "search 2 -1 0", "moves c"])
+    # the longest game the interface accepts, in the smallest position (two kings: iterations are cheap, so an unlimited
+    # search reaches the depth limit at once): game length + search depth + quiescence must stay inside the state stack
+    kshuffle = ["e2d2", "e5d5", "d2e2", "d5e5"]
+    for n in (398, 397, 200):
+        ms = " ".join(kshuffle[i % 4] for i in range(n))
+        cases.append(["position fen 8/8/8/4k3/8/8/4K3/8 w - - 0 1 moves " + ms, "obs", "ttnew", "search - 400000000 0", "moves c"])
     # everything the reader accepts from a mutation stream, followed by generation and a shallow search
     from . import textchk
     for f in roots.ALL[::7]:
@@ -698,8 +726,16 @@ def check_bounds(rep, tier, seed):
             cases.append(["new " + s, "moves u", "moves c", "ttnew", "search 1 -1 0"])
     stats, kinds = Counter(), Counter()
     rust, _ = core.run_rust(cases, profile="checked", timeout=1500)
-    lean, lc = core.run_lean(cases, timeout=1500)
-    first = correspondence(rep, "C15", cases, rust, lean, stats)
+    # the model is compared on everything except the 32-iteration searches after a maximal game (a minute of model time each;
+    # those cases are there for the checked build's assertions)
+    slow = {ci for ci, c in enumerate(cases) if c[0].startswith("position fen 8/8/8/4k3/8/8/4K3/8")}
+    mcases = [c for ci, c in enumerate(cases) if ci not in slow]
+    mlean, lc = core.run_lean(mcases, timeout=1500)
+    first = correspondence(rep, "C15", mcases, [rust[ci] for ci in range(len(cases)) if ci not in slow], mlean, stats)
+    if first:       # index back into the full list for the replay
+        first = (cases.index(mcases[first[0]]), first[1])
+    it = iter(mlean)
+    lean = [([None] * len(c) if ci in slow else next(it)) for ci, c in enumerate(cases)]
     maxlen = 0
     for ci, case in enumerate(cases):
         for oi, op in enumerate(case):
@@ -715,8 +751,9 @@ def check_bounds(rep, tier, seed):
                     rep.violation("impl-vs-spec", f"`position` accepted a game of length {glen} (the state stack has 512 entries and the search needs room)",
                                   "", replay_ops=[op[:200] + " …"])
                     break
-            if out and out[0].startswith("fault:"):
-                rep.violation("impl-vs-spec", f"checked build panicked: {out[0][:120]} on `{op[:60]}` @ {case[0][:80]}", "", replay_ops=case[: oi + 1])
+            flt = next((l for l in (out or []) if l.startswith("fault:")), None)      # a search prints its info lines first
+            if flt:
+                rep.violation("impl-vs-spec", f"checked build panicked: {flt[:120]} on `{op[:60]}` @ {case[0][:80]}", "", replay_ops=case[: oi + 1])
                 break
             if op.startswith("moves u") and out and out[0].split(" ")[0].isdigit():
                 n = int(out[0].split(" ")[0])
@@ -737,7 +774,7 @@ def check_bounds(rep, tier, seed):
 
     def selfplay(ms):
         try:
-            return ms, subprocess.run([core.ENGINE, "auto", str(ms)], capture_output=True, text=True, timeout=300 if tier == "quick" else 1200)
+            return ms, subprocess.run([core.ENGINE, "auto", str(ms)], capture_output=True, text=True, errors="replace", timeout=300 if tier == "quick" else 1200)
         except subprocess.TimeoutExpired:
             return ms, None
     games = [0, 1, 2, 3] if tier == "quick" else [0, 0, 1, 1, 2, 3, 5, 8, 13, 20]
